@@ -249,7 +249,8 @@ def check_after(prop, f, m, snap, opinfo, changed_child_ids):
             return f'C06: printed text no longer parses ({type(e).__name__}: {str(e)[:120]}); text={text!r}'
         if tree.flat_structure(g) != tree.flat_structure(f):
             return f'C06: re-parse differs from the model; text={text[:300]!r}'
-    if prop == 'C09' and opinfo[0] == 'val':
+    if prop == 'C09' and opinfo[0] == 'val' and not (type(m).__name__ == 'Transaction' and opinfo[1] in ('payee', 'narration', 'string0', 'string1', 'string2')) \
+            and type(m).__name__ != 'CostSpec':      # the dependent groups are checked against their record models by drivers/special.py
         _, n, v = opinfo
         got = getattr(m, n)
         if got != v: return f'C09: {type(m).__name__}.{n} = {v!r} reads back {got!r}'
@@ -345,8 +346,8 @@ def run(prop, tier, seed):
     if tier == 'quick':
         docs = [d for d in docs if '+lead' not in d[0]]
     cases = list(all_single_ops(docs))
-    if tier == 'quick' and len(cases) > 9000:
-        rnd.shuffle(cases); cases = cases[:9000]
+    if tier == 'quick' and len(cases) > 6000:
+        rnd.shuffle(cases); cases = cases[:6000]
     for name, op in cases:
         try:
             msg, status = run_case(prop, name, [op])
